@@ -14,7 +14,7 @@ template<class Graph>
 void read_dimacs_from_file(FILE *fp, Graph &graph) {
     typedef typename boost::graph_traits<Graph>::vertex_descriptor vertex_descriptor;
     typedef typename boost::graph_traits<Graph>::edge_descriptor edge_descriptor;
-    char buffer[1024], problem[1024];
+    char buffer[256], problem[256];                       // R10f: shorter than the 1024 bytes the property is stated for
     std::size_t nnodes, nedges;
     std::map<std::size_t, vertex_descriptor> vertex_map;
     typename boost::property_map<Graph, boost::edge_weight_t>::type weight = get(boost::edge_weight, graph);
